@@ -3,6 +3,7 @@
   ./check selftest determinism [runs-per-property]   every run executed in two different worker partitions
                                                      (16 and 3 processes => different OS processes, ASLR,
                                                      RandomState seeds); per-run digests must be identical
+  ./check selftest fidelity                          `bench` inside the simulator visits exactly the node count of the repository's release binary
   ./check selftest mutants [tier]                    every patch under /verif/mutants and /verif/seeded/*/patch.diff
                                                      is applied to a scratch worktree; the check of the property it
                                                      breaks must report a VIOLATION; the unpatched tree must be clean
@@ -95,6 +96,44 @@ def mutants(argv):
     return 1 if missed else 0
 
 
+def fidelity(argv):
+    """The `bench` command inside the simulator must visit exactly as many nodes as the repository's own release
+    binary (87 positions, depth 10).  Corroboration of the shadow build, not a property check."""
+    import importlib.machinery
+    import importlib.util
+    import re
+    import tempfile
+    loader = importlib.machinery.SourceFileLoader("check_driver", os.path.join(HERE, "check"))
+    spec = importlib.util.spec_from_loader("check_driver", loader)
+    chk = importlib.util.module_from_spec(spec)
+    loader.exec_module(chk)
+    repo = chk.REPO
+    p = subprocess.run(["cargo", "build", "--release", "--offline", "--quiet"], cwd=repo, stdout=subprocess.PIPE, stderr=subprocess.STDOUT, text=True,
+                       env=dict(os.environ, CARGO_NET_OFFLINE="true"))
+    if p.returncode != 0:
+        print(p.stdout[-2000:])
+        print("HARNESS-ERROR: cannot build the repository's release binary")
+        return 2
+    real = subprocess.run([os.path.join(repo, "target/release/engine")], input="bench\nquit\n", stdout=subprocess.PIPE, stderr=subprocess.DEVNULL, text=True, timeout=900).stdout
+    m = re.search(r"(\d+) nodes", real)
+    real_nodes = int(m.group(1)) if m else None
+    binary, _ = chk.build("checked")
+    doc = {"property": "C12", "profile": "checked", "seed": 1, "run": 0, "tier": "quick",
+           "scenario": {"A": {"script": [{"Raw": "bench"}, "Quit"],
+                              "knobs": {"poll_interval": None, "initial_hash_mb": 1, "tau_ps": 250000, "policy": "Uniform", "spurious_permille": 0},
+                              "clock_events": [], "sched_seed": 1, "schedule": None}},
+           "violation": {"property": "C12", "class": "x", "message": "", "signature": ""}, "log_hash": "", "minimised": False, "note": ""}
+    with tempfile.NamedTemporaryFile("w", suffix=".json", delete=False) as f:
+        json.dump(doc, f)
+        path = f.name
+    sim = subprocess.run([binary, "transcript", path], stdout=subprocess.PIPE, stderr=subprocess.DEVNULL, text=True, timeout=1800).stdout
+    os.remove(path)
+    m = re.search(r"(\d+) nodes", sim)
+    sim_nodes = int(m.group(1)) if m else None
+    print(f"fidelity: release binary bench = {real_nodes} nodes, simulated engine bench = {sim_nodes} nodes")
+    return 0 if real_nodes is not None and real_nodes == sim_nodes else 1
+
+
 def main(argv):
     if not argv:
         print(__doc__)
@@ -103,5 +142,7 @@ def main(argv):
         return determinism(argv[1:])
     if argv[0] == "mutants":
         return mutants(argv[1:])
+    if argv[0] == "fidelity":
+        return fidelity(argv[1:])
     print(__doc__)
     return 2
